@@ -434,3 +434,111 @@ Example demo_second_start : exists s,
      LTau (TCaller 0); LTau (TCaller 0); LTau (TCaller 0); LTau (TCaller 0); LTau (TCaller 0); LTau (TCaller 0); LTau (TCaller 0);
      LTau (TCaller 0); LTau (TCaller 0); LTau (TCaller 0); LTau (TCaller 1); LRet 1 (RStart SAlready); LRet 0 (RStart SNil)] s.
 Proof. eexists. vm_compute. reflexivity. Qed.
+
+(* ---------------------------------------------------------------- 9. a signal never overtakes a Recover
+
+   Every `close(signal)` / flag store that lets another goroutine (or a Wait caller) proceed happens
+   after the deferred erc.Recover of the same goroutine recorded the phase's outcome, panic included. *)
+
+Definition sd_recorded (c : cfg) (e : ecs) : Prop :=
+  tSdErr e = is_err (oSd c) /\ tSdPan e = is_panic (oSd c) /\ (is_panic (oSd c) = true -> tMark e = true).
+Definition run_recorded (c : cfg) (e : ecs) : Prop :=
+  tRunErr e = is_err (oRun c) /\ tRunPan e = is_panic (oRun c) /\
+  (is_panic (oRun c) || is_absent (oRun c) = true -> tMark e = true).
+Definition cl_recorded (c : cfg) (e : ecs) : Prop :=
+  tClErr e = is_err (oCl c) /\ tClPan e = is_panic (oCl c) /\ (is_panic (oCl c) = true -> tMark e = true).
+
+Lemma shutdown_panic_recorded_before_signal : forall c ls s, reach c ls s ->
+  sdSig s = true -> sd_recorded c (ec s).
+Proof.
+  intros c ls s H Hs. destruct (inv_reach _ _ _ H) as [SI _].
+  rewrite (si_sdsig _ _ SI) in Hs. rewrite (si_ec _ _ SI). unfold sd_recorded, ec_of; cbn.
+  replace (5 <=? drank (sd s)) with true by lia. replace (6 <=? drank (sd s)) with true by lia.
+  rewrite !andb_true_r. repeat split. intros Hp. rewrite Hp. cbn. rewrite orb_true_r. reflexivity.
+Qed.
+
+(* the main goroutine's chain: ehSignal is closed after Run's outcome is recorded; isFinished is stored
+   (and mainSignal closed) after Run's, Shutdown's and Cleanup's outcomes are recorded *)
+Lemma run_recorded_before_eh_signal : forall c ls s, reach c ls s ->
+  ehSig s = true -> run_recorded c (ec s) /\ sd_recorded c (ec s).
+Proof.
+  intros c ls s H Hs. destruct (inv_reach _ _ _ H) as [SI _].
+  rewrite (si_ehsig _ _ SI) in Hs. pose proof (si_g_mn _ _ SI) as Hd.
+  rewrite (si_ec _ _ SI). unfold run_recorded, sd_recorded, ec_of; cbn.
+  replace (4 <=? mrank (mn s)) with true by lia. replace (6 <=? mrank (mn s)) with true by lia.
+  replace (5 <=? drank (sd s)) with true by lia. replace (6 <=? drank (sd s)) with true by lia.
+  rewrite !andb_true_r. repeat split.
+  - intros Hp. rewrite Hp. reflexivity.
+  - intros Hp. rewrite Hp. cbn. rewrite orb_true_r. reflexivity.
+Qed.
+
+Lemma all_recorded_before_finished : forall c ls s, reach c ls s ->
+  fFin s = true \/ mainSig s = true ->
+  run_recorded c (ec s) /\ sd_recorded c (ec s) /\ cl_recorded c (ec s).
+Proof.
+  intros c ls s H Hs. destruct (inv_reach _ _ _ H) as [SI _].
+  assert (Hm : 13 <= mrank (mn s)).
+  { destruct Hs as [Hs|Hs]; [apply (fin_rank _ _ SI Hs)|]. rewrite (si_mainsig _ _ SI) in Hs. lia. }
+  pose proof (si_g_mn _ _ SI) as Hd.
+  rewrite (si_ec _ _ SI). unfold run_recorded, sd_recorded, cl_recorded, ec_of; cbn.
+  replace (4 <=? mrank (mn s)) with true by lia. replace (6 <=? mrank (mn s)) with true by lia.
+  replace (11 <=? mrank (mn s)) with true by lia. replace (12 <=? mrank (mn s)) with true by lia.
+  replace (5 <=? drank (sd s)) with true by lia. replace (6 <=? drank (sd s)) with true by lia.
+  rewrite !andb_true_r. repeat split.
+  - intros Hp. rewrite Hp. reflexivity.
+  - intros Hp. rewrite Hp. cbn. rewrite orb_true_r. reflexivity.
+  - intros Hp. rewrite Hp. cbn. rewrite !orb_true_r. reflexivity.
+Qed.
+
+(* ---------------------------------------------------------------- the swapped defer order is refuted
+
+   Variant of the Shutdown goroutine in which `defer erc.Recover(ec)` is registered BEFORE
+   `defer close(shutdownSignal)` (so the signal is closed first, the panic recorded afterwards); every
+   other step is unchanged.  The goroutine used when no Shutdown is configured is left as it is. *)
+
+Definition step_sd_swapped (c : cfg) (s : state) : option state :=
+  if is_absent (oSd c) then step_sd c s
+  else match sd s with
+       | D4 => Some (set_sd D5 (set_sdSig true s))                                             (* close(shutdownSignal) *)
+       | D5 => Some (set_sd D6 (if is_panic (oSd c) then set_ec (add_SdPan (ec s)) s else s))  (* Recover *)
+       | _ => step_sd c s
+       end.
+
+Definition step_swapped (c : cfg) (s : state) (l : label) : option state :=
+  match l with LTau TSd => step_sd_swapped c s | _ => step c s l end.
+
+Fixpoint run_swapped (c : cfg) (s : state) (ls : list label) : option state :=
+  match ls with
+  | [] => Some s
+  | l :: ls' => match step_swapped c s l with Some s' => run_swapped c s' ls' | None => None end
+  end.
+
+Definition cfg_sd_panic := MkCfg OOk OPanic OAbsent OAbsent.
+
+(* Start; Run returns; Shutdown panics; the signal is closed; the main goroutine finishes; a Wait that
+   arrives now takes the isFinished fast path while the panic is not yet recorded *)
+Definition swapped_log : list label :=
+  [LInv KStart; LTau (TCaller 0); LTau (TCaller 0); LTau (TCaller 0); LTau (TCaller 0); LTau (TCaller 0); LTau (TCaller 0);
+   LTau (TCaller 0); LTau (TCaller 0); LTau (TCaller 0); LTau (TCaller 0); LTau (TCaller 0); LTau (TCaller 0);
+   LRet 0 (RStart SNil); LBegin PRun; LEnd PRun; LTau TMain; LTau TMain; LTau TMain;
+   LTau TSd; LBegin PSd; LEnd PSd; LTau TSd;
+   LTau TMain; LTau TMain; LTau TMain; LTau TMain;
+   LInv KWait; LTau (TCaller 1); LTau (TCaller 1); LRet 1 (RWait WNil)].
+
+Lemma wait_error_complete_swapped_refuted :
+  exists s, run_swapped cfg_sd_panic init swapped_log = Some s /\
+            In (LRet 1 (RWait WNil)) swapped_log /\ ~ wres_ok cfg_sd_panic WNil.
+Proof.
+  eexists. split; [vm_compute; reflexivity|]. split; [cbn; tauto|]. cbn. discriminate.
+Qed.
+
+Lemma shutdown_panic_recorded_before_signal_swapped_refuted :
+  exists ls s, run_swapped cfg_sd_panic init ls = Some s /\ sdSig s = true /\ ~ sd_recorded cfg_sd_panic (ec s).
+Proof.
+  exists (firstn 23 swapped_log). eexists. split; [vm_compute; reflexivity|]. split; [reflexivity|].
+  unfold sd_recorded; cbn. intros [_ [H _]]. discriminate.
+Qed.
+
+(* the same log is not a run of the real step relation: there the panic is recorded before the signal *)
+Example swapped_log_not_a_run : run cfg_sd_panic init swapped_log = None.
+Proof. vm_compute. reflexivity. Qed.
